@@ -89,6 +89,7 @@ def addRaw (K : Kern) (pool : Pool) (s : State) (a0 a1 : Rat) (lower upper : Int
   | .error e => (.error e, s)
   | .ok sqrt =>
   if lower > upper then (.error .demeter, s) else
+  if a0 < 0 || a1 < 0 then (.error .demeter, s) else
   match K.newPos pool sqrt lower upper a0 a1 with
   | .error e => (.error e, s)
   | .ok (u0, u1, liq) =>
@@ -195,37 +196,89 @@ def addByPrice (K : Kern) (pool : Pool) (s : State) (lowerP upperP : Rat) (lt ut
 
 /-! ### remove / collect -/
 
+/-- `max and max < 0` -/
+def negGiven : Option Rat → Bool
+  | some x => x != 0 && decide (x < 0)
+  | none => false
+
+/-- `max if max is not None and max < pending else pending` -/
+def capAt : Option Rat → Rat → Rat
+  | some m, pending => if m < pending then m else pending
+  | none, pending => pending
+
+/-- the wallet after `__collect_fee` -/
+def collectWallet (cx : NumCtx) (pool : Pool) (w : Wallet) (toUser : Bool) (f0 f1 : Rat) : Wallet :=
+  if toUser then Wallet.credit cx (Wallet.credit cx w pool.tok0 f0) pool.tok1 f1 else w
+
+/-- the position after `__collect_fee` -/
+def collectPos (cx : NumCtx) (p : Pos) (f0 f1 : Rat) : Pos :=
+  { p with pending0 := cx.sub p.pending0 f0, pending1 := cx.sub p.pending1 f1 }
+
+/-- `pending0 == 0 and pending1 == 0 and liquidity == 0 and remove_dry_pool` -/
+def isDry (p : Pos) (removeDry : Bool) : Bool := p.pending0 == 0 && p.pending1 == 0 && p.liq == 0 && removeDry
+
+/-- state right after `__collect_fee` (position reduced, wallet credited, `has_update` set) -/
+def collectCore (K : Kern) (pool : Pool) (s : State) (lower upper : Int) (p : Pos) (f0 f1 : Rat) (toUser : Bool) : State :=
+  markUpdate { s with positions := mapPos s.positions lower upper (fun _ => collectPos K.cx p f0 f1),
+                      wallet := collectWallet K.cx pool s.wallet toUser f0 f1 }
+
+/-- … then the action record and the deletion of a dry position -/
+def collectFinish (K : Kern) (pool : Pool) (s : State) (lower upper : Int) (p : Pos) (f0 f1 : Rat)
+    (removeDry toUser : Bool) (bb qb : Rat) : State :=
+  let s2 := record (collectCore K pool s lower upper p f0 f1 toUser)
+    { kind := "CollectFeeAction", nums := [bb, qb, (pool.conv f0 f1).1, (pool.conv f0 f1).2] }
+  if isDry (collectPos K.cx p f0 f1) removeDry then { s2 with positions := erasePos s2.positions lower upper } else s2
+
 /-- `__collect_fee` + the rest of `collect_fee` -/
 def collect (K : Kern) (pool : Pool) (s : State) (lower upper : Int) (max0? max1? : Option Rat)
     (removeDry toUser : Bool) : Res :=
-  let neg (m : Option Rat) : Bool := match m with | some x => x != 0 && x < 0 | none => false
-  if neg max0? || neg max1? then fail .demeter s else
+  if negGiven max0? || negGiven max1? then fail .demeter s else
   match findPos s.positions lower upper with
   | none => fail .key s
   | some p =>
     if p.transferred then fail .demeter s else
     if !s.isOpen then fail .demeter s else
-    let f0 := match max0? with | some m => if m < p.pending0 then m else p.pending0 | none => p.pending0
-    let f1 := match max1? with | some m => if m < p.pending1 then m else p.pending1 | none => p.pending1
-    let p' := { p with pending0 := K.cx.sub p.pending0 f0, pending1 := K.cx.sub p.pending1 f1 }
-    let w := if toUser then Wallet.credit K.cx (Wallet.credit K.cx s.wallet pool.tok0 f0) pool.tok1 f1 else s.wallet
-    let s1 := markUpdate { s with positions := mapPos s.positions lower upper (fun _ => p'), wallet := w }
-    let (bg, qg) := pool.conv f0 f1
-    match balanceOf s1.wallet pool.baseTok, balanceOf s1.wallet pool.quoteTok with
+    match balanceOf (collectWallet K.cx pool s.wallet toUser (capAt max0? p.pending0) (capAt max1? p.pending1)) pool.baseTok,
+          balanceOf (collectWallet K.cx pool s.wallet toUser (capAt max0? p.pending0) (capAt max1? p.pending1)) pool.quoteTok with
     | .ok bb, .ok qb =>
-      let s2 := record s1 { kind := "CollectFeeAction", nums := [bb, qb, bg, qg] }
-      let s3 := if p'.pending0 == 0 && p'.pending1 == 0 && p'.liq == 0 && removeDry
-                then { s2 with positions := erasePos s2.positions lower upper } else s2
-      (.ok [bg, qg], s3)
-    | .error e, _ => (.error e, s1)
-    | _, .error e => (.error e, s1)
+      (.ok [(pool.conv (capAt max0? p.pending0) (capAt max1? p.pending1)).1, (pool.conv (capAt max0? p.pending0) (capAt max1? p.pending1)).2],
+        collectFinish K pool s lower upper p (capAt max0? p.pending0) (capAt max1? p.pending1) removeDry toUser bb qb)
+    | .error e, _ => (.error e, collectCore K pool s lower upper p (capAt max0? p.pending0) (capAt max1? p.pending1) toUser)
+    | _, .error e => (.error e, collectCore K pool s lower upper p (capAt max0? p.pending0) (capAt max1? p.pending1) toUser)
 
-/-- `remove_liquidity(position, liquidity, collect, sqrt_price_x96, remove_dry_pool)`; the `int` liquidity argument
-    reaches the code as a `Decimal` (float_param_formatter) -/
-def remove (K : Kern) (pool : Pool) (s : State) (lower upper : Int) (liq? : Option Int) (doCollect : Bool)
-    (sqrt? : Option Nat) (removeDry : Bool) : Res :=
-  if (match liq? with | some l => decide (l < 0) | none => false) then fail .demeter s else
-  if (match findPos s.positions lower upper with | some p => p.transferred | none => false) then fail .demeter s else
+/-- `liquidity and liquidity < 0` -/
+def negLiq : Option Int → Bool
+  | some l => decide (l < 0)
+  | none => false
+
+def isTransferred (ps : List Pos) (lower upper : Int) : Bool :=
+  match findPos ps lower upper with
+  | some p => p.transferred
+  | none => false
+
+/-- `delta_liquidity` and whether it is a Decimal -/
+def removeDelta : Option Int → Pos → Int × Bool
+  | some l, p => if l < p.liq then (l, true) else (p.liq, p.liqDec)
+  | none, p => (p.liq, p.liqDec)
+
+/-- the position after `__remove_liquidity` -/
+def removePos (cx : NumCtx) (p : Pos) (delta : Int) (deltaDec : Bool) (g0 g1 : Rat) : Pos :=
+  { p with liq := p.liq - delta, liqDec := p.liqDec || deltaDec,
+           pending0 := cx.add p.pending0 g0, pending1 := cx.add p.pending1 g1 }
+
+/-- state right after `__remove_liquidity` -/
+def removeCore (K : Kern) (s : State) (lower upper : Int) (p : Pos) (delta : Int) (deltaDec : Bool) (g0 g1 : Rat) : State :=
+  markUpdate { s with positions := mapPos s.positions lower upper (fun _ => removePos K.cx p delta deltaDec g0 g1) }
+
+def removeAct (pool : Pool) (p' : Pos) (delta : Int) (g0 g1 bb qb : Rat) : Act :=
+  { kind := "RemoveLiquidityAction",
+    nums := [bb, qb, (pool.conv g0 g1).1, (pool.conv g0 g1).2, (delta : Rat), (p'.liq : Rat)] }
+
+/-- `remove_liquidity` up to (and including) the action record: `__remove_liquidity` + `RemoveLiquidityAction`.
+    The `int` liquidity argument reaches the code as a `Decimal` (float_param_formatter). -/
+def removeNoCollect (K : Kern) (pool : Pool) (s : State) (lower upper : Int) (liq? : Option Int) (sqrt? : Option Nat) : Res :=
+  if negLiq liq? then fail .demeter s else
+  if isTransferred s.positions lower upper then fail .demeter s else
   if !s.isOpen then fail .demeter s else
   match resolveSqrt K pool s sqrt? with
   | .error e => fail e s
@@ -233,23 +286,24 @@ def remove (K : Kern) (pool : Pool) (s : State) (lower upper : Int) (liq? : Opti
     match findPos s.positions lower upper with
     | none => fail .key s
     | some p =>
-      let isPart : Bool := match liq? with | some l => decide (l < p.liq) | none => false
-      let delta := match liq? with | some l => if l < p.liq then l else p.liq | none => p.liq
-      let deltaDec := if isPart then true else p.liqDec
-      match K.amounts pool sqrt lower upper delta deltaDec with
+      match K.amounts pool sqrt lower upper (removeDelta liq? p).1 (removeDelta liq? p).2 with
       | .error e => fail e s
       | .ok (g0, g1) =>
-        let p' := { p with liq := p.liq - delta, liqDec := p.liqDec || deltaDec,
-                           pending0 := K.cx.add p.pending0 g0, pending1 := K.cx.add p.pending1 g1 }
-        let s1 := markUpdate { s with positions := mapPos s.positions lower upper (fun _ => p') }
-        let (bg, qg) := pool.conv g0 g1
-        match balanceOf s1.wallet pool.baseTok, balanceOf s1.wallet pool.quoteTok with
+        match balanceOf s.wallet pool.baseTok, balanceOf s.wallet pool.quoteTok with
         | .ok bb, .ok qb =>
-          let s2 := record s1 { kind := "RemoveLiquidityAction", nums := [bb, qb, bg, qg, (delta : Rat), (p'.liq : Rat)] }
-          if doCollect then collect K pool s2 lower upper none none removeDry true
-          else (.ok [bg, qg], s2)
-        | .error e, _ => (.error e, s1)
-        | _, .error e => (.error e, s1)
+          (.ok [(pool.conv g0 g1).1, (pool.conv g0 g1).2],
+            record (removeCore K s lower upper p (removeDelta liq? p).1 (removeDelta liq? p).2 g0 g1)
+              (removeAct pool (removePos K.cx p (removeDelta liq? p).1 (removeDelta liq? p).2 g0 g1) (removeDelta liq? p).1 g0 g1 bb qb))
+        | .error e, _ => (.error e, removeCore K s lower upper p (removeDelta liq? p).1 (removeDelta liq? p).2 g0 g1)
+        | _, .error e => (.error e, removeCore K s lower upper p (removeDelta liq? p).1 (removeDelta liq? p).2 g0 g1)
+
+/-- `remove_liquidity(position, liquidity, collect, sqrt_price_x96, remove_dry_pool)`:
+    `if collect: return self.collect_fee(position, remove_dry_pool=remove_dry_pool)` -/
+def remove (K : Kern) (pool : Pool) (s : State) (lower upper : Int) (liq? : Option Int) (doCollect : Bool)
+    (sqrt? : Option Nat) (removeDry : Bool) : Res :=
+  match removeNoCollect K pool s lower upper liq? sqrt? with
+  | (.error e, s') => (.error e, s')
+  | (.ok v, s2) => if doCollect then collect K pool s2 lower upper none none removeDry true else (.ok v, s2)
 
 /-- `remove_all_liquidity`: `remove_liquidity(key)` for every key that is not transferred out, in dict order;
     stops at the first exception -/
